@@ -731,10 +731,18 @@ class Verifier(QuantMixin, LoopMixin, ExprMixin, CallMixin, StmtMixin, BuiltinsM
         for f in self.TRACE_FIELDS:
             self.st.ghost['tr_' + f] = z3.Array('G_tr_' + f, smt.I, Val)
         self.trace_parent: Dict[int, Tuple[Any, Any]] = {}
+        g = z3.Const('G_gathers', smt.I)
+        self.st.ghost['gathers'] = g         # number of asyncio.gather calls (C10: concurrency is only entered there)
+        self._add_axiom(g >= 0)
 
     def havoc_ghost(self, g: str) -> None:
         """the callee / loop may have appended events: the length grows by d >= 0, earlier events are
         unchanged (prefix axioms are instantiated where events are read)"""
+        if g == 'gathers':
+            d = self.fresh('g_d', smt.I)
+            self._add_axiom(d >= 0)
+            self.st.ghost['gathers'] = smt.simp(self.st.ghost['gathers'] + d)
+            return
         if g != 'trace':
             raise Unsupported(f'unknown ghost {g}')
         old_len = self.st.ghost['tr_len']
@@ -776,6 +784,13 @@ class Verifier(QuantMixin, LoopMixin, ExprMixin, CallMixin, StmtMixin, BuiltinsM
             self._add_axiom(z3.Implies(inr, z3.And(Val.is_ref(v), Val.r(v) >= 0, smt.cls_of(Val.r(v)) == K.cid)))
             self.hint_cls.setdefault(v.get_id(), K)
         return v
+
+    def prim_gather_calls(self, e, fr):
+        return smt.simp(Val.int(self.st.ghost['gathers']))
+
+    def ghost_note(self, what: str, v) -> None:
+        if what == 'gather':
+            self.st.ghost['gathers'] = smt.simp(self.st.ghost['gathers'] + 1)
 
     def prim_tlen(self, e, fr):
         return smt.simp(Val.int(self.st.ghost['tr_len']))
